@@ -376,6 +376,38 @@ impl Run {
         F: Fn(&S::Value) -> CheckResult + Sync,
     {
         let t0 = Instant::now();
+        if let Ok(only) = std::env::var("VERIF_ONLY_SUB")
+            && !sub.contains(&only)
+        {
+            // development aid: run a single sub-check
+            return;
+        }
+        if std::env::var("VERIF_SURVEY").is_ok() {
+            // development aid (never used by registered commands): list distinct failure
+            // signatures instead of stopping at the first one
+            let cfg = Config { cases: cases as u32, failure_persistence: None, rng_seed: RngSeed::Fixed(derive_seed(self.seed, self.prop, sub, 0)), ..Config::default() };
+            let mut runner = TestRunner::new(cfg);
+            let strat = mk_strat();
+            let mut seen: BTreeMap<String, (u64, String)> = BTreeMap::new();
+            for _ in 0..cases {
+                let Ok(tree) = strat.new_tree(&mut runner) else { continue };
+                let v = tree.current();
+                let out = match catch(|| check(&v)) {
+                    Ok(r) => r,
+                    Err(p) => Err(p.into_failure(sub)),
+                };
+                if let Err(f) = out {
+                    let sig = format!("{} {}", f.kind, f.witness);
+                    let e = seen.entry(sig).or_insert((0, format!("{}\n      case: {}", f.msg.chars().take(600).collect::<String>(), serde_json::to_string(&v).unwrap_or_default().chars().take(400).collect::<String>())));
+                    e.0 += 1;
+                }
+            }
+            println!("SURVEY {sub}: {} distinct failure signatures", seen.len());
+            for (sig, (n, ex)) in seen {
+                println!("  [{n}x] {sig}\n      {ex}");
+            }
+            return;
+        }
         let threads = (self.threads as u64).min(cases.max(1)).max(1);
         let stop = AtomicBool::new(false);
         let found: Mutex<Option<(Value, Failure)>> = Mutex::new(None);
